@@ -3,3 +3,7 @@ CLAIMS["C36"] = dict(level="model_checking", engine="sched",
     technique="explicit-state enumeration of all operation histories up to a depth bound against a reference LRU + exhaustive schedule enumeration (controlled scheduler, preemption-bounded / happens-before pruned) with brute-force linearizability check",
     text="Every Put/Put-nil/Get history over 3 keys x 2 values up to depth 6 (8 thorough) per capacity is executed on the real cache and compared step by step (results, recency order, size) with a reference LRU; every schedule of 3 threads x 2 ops (2 x 3 thorough) from a collision-forcing program menu is enumerated on the real cache and the recorded call/return history must have a linearization.",
     note="Scheduling points are the cache's mutex operations; unsynchronised accesses are not interleaved (separate -race pass). Reference LRU and the op alphabet are trusted.")
+CLAIMS["C02"] = dict(level="exploration",
+    technique="exhaustive enumeration of a bounded configuration/spec grid (IDs x Config deviations, generated custom specs, fingerprinted copies, every GREASE-ECH payload length) judged by an independent strict ClientHello parser",
+    text="Every discovered ClientHelloID, every generated custom spec (singletons, ordered pairs, everything-once), every fingerprinted copy under all 8 Fingerprinter flag sets, every GREASE-ECH capture payload length 0..300 and enumerated randomized seeds are built under bounded Config deviations; the first flight must parse under a strict RFC-grammar parser or an error must have been returned.",
+    note="Strict parser (mc/wire) trusted; unknown extension types opaque; values below an RFC minimum (empty lists) are observed, not judged; value menu per extension type is finite.")
